@@ -181,6 +181,40 @@ var watchdogCtx struct {
 	caseJSON       []byte
 }
 
+// noteCurrentCase keeps the case being evaluated in a file, so that the driver
+// can attribute a crash of the whole process (a panic in a goroutine of the
+// case, a runtime fatal error such as "concurrent map writes") to its input.
+var currentCase struct {
+	f    *os.File
+	path string
+}
+
+func noteCurrentCase(js []byte) {
+	if os.Getenv("VERIF_OUT") == "" {
+		return
+	}
+	if currentCase.f == nil {
+		currentCase.path = filepath.Join(outDir(), fmt.Sprintf("%s.%s.%s.current.json", watchdogCtx.id, watchdogCtx.part, shardLabel()))
+		f, err := os.Create(currentCase.path)
+		if err != nil {
+			return
+		}
+		currentCase.f = f
+	}
+	rec, _ := json.Marshal(failRecord{Property: watchdogCtx.id, Part: watchdogCtx.part, Test: watchdogCtx.test, Error: "CRASH: the test process died while evaluating this case", Case: js})
+	currentCase.f.Truncate(0)
+	currentCase.f.WriteAt(rec, 0)
+}
+
+// clearCurrentCase removes the file when a part ends normally.
+func clearCurrentCase() {
+	if currentCase.f != nil {
+		currentCase.f.Close()
+		os.Remove(currentCase.path)
+		currentCase.f = nil
+	}
+}
+
 // failHard records the current case as failing and ends the process.  It is
 // used when a check cannot return normally (e.g. goroutines of the case are
 // deadlocked inside the library).
@@ -244,7 +278,10 @@ func safeCheck[C any](check func(C, *Obs) error, c C, o *Obs) (err error) {
 const stallThreshold = 400 * time.Millisecond
 
 // evalCase runs check on c, re-evaluating stalled failures.
-func evalCase[C any](check func(C, *Obs) error, c C, fp uint64) (*Obs, error, int) {
+func evalCase[C any](check func(C, *Obs) error, c C, js []byte) (*Obs, error, int) {
+	fp := fingerprint(js)
+	watchdogCtx.caseJSON = js
+	noteCurrentCase(js)
 	o := &Obs{fp: fp}
 	start := time.Now()
 	err := safeCheck(check, c, o)
@@ -269,6 +306,7 @@ func RunProp[C any](t *testing.T, id, part string, gen func(*rapid.T) C, check f
 	watchdogCtx.id, watchdogCtx.part, watchdogCtx.test = id, part, t.Name()
 	st := newStats(id, part)
 	defer st.flush()
+	defer clearCurrentCase()
 
 	runOne := func(c C, src string) error {
 		js, jerr := json.Marshal(c)
@@ -276,7 +314,7 @@ func RunProp[C any](t *testing.T, id, part string, gen func(*rapid.T) C, check f
 			t.Fatalf("harness: case not serialisable: %v", jerr)
 		}
 		watchdogCtx.caseJSON = js
-		o, err, discarded := evalCase(check, c, fingerprint(js))
+		o, err, discarded := evalCase(check, c, js)
 		st.commit(o, js)
 		if discarded > 0 {
 			st.Classes["stalled_failing_evaluation_not_reproduced"] += int64(discarded)
@@ -332,12 +370,13 @@ func RunEnum[C any](t *testing.T, id, part string, enum func(yield func(C) bool)
 	watchdogCtx.id, watchdogCtx.part, watchdogCtx.test = id, part, t.Name()
 	st := newStats(id, part)
 	defer st.flush()
+	defer clearCurrentCase()
 	runOne := func(c C) error {
 		js, jerr := json.Marshal(c)
 		if jerr != nil {
 			t.Fatalf("harness: case not serialisable: %v", jerr)
 		}
-		o, err, discarded := evalCase(check, c, fingerprint(js))
+		o, err, discarded := evalCase(check, c, js)
 		st.commit(o, js)
 		if discarded > 0 {
 			st.Classes["stalled_failing_evaluation_not_reproduced"] += int64(discarded)
